@@ -74,13 +74,14 @@ Section WithHash.
     - destruct (pair_op q); [right|]; apply IH; assumption.
   Qed.
 
-  Lemma consumed_pair s xa pairs s1 p :
-    consumed hash cf s xa pairs s1 -> In p pairs ->
+  Lemma consumed_pair direct s xa pairs s1 p :
+    consumed hash cf direct s xa pairs s1 -> In p pairs ->
     exists o, pair_op p = Some o /\
       state_of (ctl s) (hash o) = Ready /\ mark (ctl s1) (hash o) = 1 /\
       (pred o = 0%N \/ mark (ctl s1) (pred o) = 1) /\
       (role_count (acs s) EXECUTOR <> 0 ->
-       exists x, m_exec (snd p) = Some x /\ holds (acs s) x EXECUTOR = true /\ x <> self cf /\ xa_has xa x o = true).
+       exists x, m_exec (snd p) = Some x /\ holds (acs s) x EXECUTOR = true /\
+                 (x = self cf /\ direct = false \/ x <> self cf /\ xa_has xa x o = true)).
   Proof.
     intros (_ & _ & Hf & He) Hin.
     rewrite Forall_forall in Hf. destruct (Hf p Hin) as (o & Ho & Hx).
@@ -90,8 +91,8 @@ Section WithHash.
     repeat split; auto. intros Hne. destruct Hx as [H0|Hx]; [contradiction|exact Hx].
   Qed.
 
-  Theorem check_auth_consumes : forall s metas ctxs xa s',
-    check_auth s metas ctxs xa = Ok s' ->
+  Theorem check_auth_consumes : forall direct s metas ctxs xa s',
+    check_auth direct s metas ctxs xa = Ok s' ->
     length metas = length ctxs /\ acs s' = acs s /\ cruns s' = cruns s /\
     now (ctl s') = now (ctl s) /\ min_delay (ctl s') = min_delay (ctl s) /\
     forall k c m, nth_error ctxs k = Some c -> nth_error metas k = Some m ->
@@ -100,14 +101,15 @@ Section WithHash.
         state_of (ctl s) (hash o) = Ready /\ state_of (ctl s') (hash o) = Done /\
         (m_pred m = 0%N \/ state_of (ctl s') (m_pred m) = Done) /\
         (role_count (acs s) EXECUTOR <> 0 ->
-         exists x, m_exec m = Some x /\ holds (acs s) x EXECUTOR = true /\ x <> self cf /\ xa_has xa x o = true).
+         exists x, m_exec m = Some x /\ holds (acs s) x EXECUTOR = true /\
+                   (x = self cf /\ direct = false \/ x <> self cf /\ xa_has xa x o = true)).
   Proof.
-    intros s metas ctxs xa s' H. apply check_auth_spec in H. destruct H as [Hl Hc].
+    intros direct s metas ctxs xa s' H. apply check_auth_spec in H. destruct H as [Hl Hc].
     split; [exact Hl|]. pose proof Hc as (Ha & Hr & _ & He).
     destruct (exec_all_spec hash _ _ _ He) as (Hn & Hm & _).
     repeat (split; [assumption|]).
     intros k c m Hkc Hkm. pose proof (nth_error_combine _ _ _ _ _ Hkc Hkm) as Hin.
-    destruct (consumed_pair _ _ _ _ _ Hc Hin) as (o & Ho & Hrd & Hdn & Hp & Hx).
+    destruct (consumed_pair _ _ _ _ _ _ Hc Hin) as (o & Ho & Hrd & Hdn & Hp & Hx).
     unfold TimelockController.pair_op in Ho. cbn [fst snd] in Ho.
     destruct c as [contract f a|]; [|discriminate].
     destruct (N.eqb contract (self cf)) eqn:Ec; [|discriminate]. apply N.eqb_eq in Ec. subst contract.
@@ -126,8 +128,8 @@ Section WithHash.
       state_of (ctl s) (hash o) = Ready /\ mark (ctl s1) (hash o) = 1 /\
       (m_pred m = 0%N \/ mark (ctl s1) (m_pred m) = 1) /\
       (role_count (acs s) EXECUTOR <> 0 ->
-       exists x, m_exec m = Some x /\ holds (acs s) x EXECUTOR = true /\ x <> self cf /\
-                 xa_has (a_exec (authz_of c)) x o = true).
+       exists x, m_exec m = Some x /\ holds (acs s) x EXECUTOR = true /\
+                 (x = self cf \/ xa_has (a_exec (authz_of c)) x o = true)).
   Proof.
     intros (pairs & Ha & Hc). unfold auth_spec in Ha. rewrite N.eqb_refl in Ha.
     destruct Ha as (se & Hse & Hroot & Hlen & ->). apply ctx_eqb_eq in Hroot.
@@ -135,13 +137,15 @@ Section WithHash.
     cbn [length] in Hlen. injection Hlen as Hlen.
     exists se, m, rest. repeat (split; [assumption|]).
     assert (Hin : In (se_root se, m) (combine (se_root se :: se_subs se) (m :: rest))) by (left; reflexivity).
-    destruct (consumed_pair _ _ _ _ _ Hc Hin) as (o & Ho & Hrd & Hdn & Hp & Hx).
+    destruct (consumed_pair _ _ _ _ _ _ Hc Hin) as (o & Ho & Hrd & Hdn & Hp & Hx).
     unfold TimelockController.pair_op in Ho. cbn [fst snd] in Ho. rewrite Hroot in Ho.
     unfold TimelockController.root_of in Ho. rewrite N.eqb_refl in Ho. inversion Ho; subst o.
-    cbv zeta. cbn [pred] in Hp. repeat split; auto.
+    cbv zeta. cbn [pred] in Hp. split; [exact Hrd|]. split; [exact Hdn|]. split; [exact Hp|].
+    intros Hne. destruct (Hx Hne) as (x & Hm & Hh & Hs). exists x. split; [exact Hm|]. split; [exact Hh|].
+    cbn [snd] in *. destruct Hs as [[Hs _]|[_ Hs]]; auto.
   Qed.
 
-  Lemma consumed_ctl_done s xa pairs s1 i : consumed hash cf s xa pairs s1 -> mark (ctl s) i = 1 -> mark (ctl s1) i = 1.
+  Lemma consumed_ctl_done direct s xa pairs s1 i : consumed hash cf direct s xa pairs s1 -> mark (ctl s) i = 1 -> mark (ctl s1) i = 1.
   Proof.
     intros (_ & _ & _ & He) Hd.
     destruct (exec_all_spec hash _ _ _ He) as (_ & _ & Hall & Hout & _).
@@ -188,9 +192,9 @@ Section WithHash.
   Qed.
 
   (* what any successful call leaves alone *)
-  Lemma consumed_acs s xa pairs s1 : consumed hash cf s xa pairs s1 -> acs s1 = acs s.
+  Lemma consumed_acs direct s xa pairs s1 : consumed hash cf direct s xa pairs s1 -> acs s1 = acs s.
   Proof. intros (H & _). exact H. Qed.
-  Lemma consumed_min s xa pairs s1 : consumed hash cf s xa pairs s1 -> min_delay (ctl s1) = min_delay (ctl s).
+  Lemma consumed_min direct s xa pairs s1 : consumed hash cf direct s xa pairs s1 -> min_delay (ctl s1) = min_delay (ctl s).
   Proof. intros (_ & _ & _ & He). apply (exec_all_spec hash _ _ _ He). Qed.
 
   Theorem admin_effect_needs_ready_op : forall s c s' r,
@@ -221,29 +225,29 @@ Section WithHash.
     - (* schedule_op *)
       pose proof H as H0. apply schedule_op_spec in H0. destruct H0 as (_ & s1 & t & (pairs & _ & Hc) & Hs & -> & _).
       apply schedule_ok in Hs. destruct Hs as (_ & _ & m & _ & _ & -> & _).
-      cbn [with_ctl ctl acs set_mark min_delay]. rewrite (consumed_acs _ _ _ _ Hc), (consumed_min _ _ _ _ Hc).
+      cbn [with_ctl ctl acs set_mark min_delay]. rewrite (consumed_acs _ _ _ _ _ Hc), (consumed_min _ _ _ _ _ Hc).
       split; [intros [Hx|[Hx|[[Hx|Hx] _]]]; congruence|]. split; [intros ro Hx; congruence|discriminate].
     - (* execute_op *)
       pose proof H as H0. apply execute_op_spec in H0. destruct H0 as (s1 & t & Hau & Hs & _ & _ & -> & _).
       apply set_execute_ok in Hs. destruct Hs as (_ & _ & ->).
       assert (Ha : acs s1 = acs s /\ min_delay (ctl s1) = min_delay (ctl s)).
       { destruct Hau as [[_ ->]|(_ & e & _ & _ & (pairs & _ & Hc))]; [auto|].
-        split; [apply (consumed_acs _ _ _ _ Hc)|apply (consumed_min _ _ _ _ Hc)]. }
+        split; [apply (consumed_acs _ _ _ _ _ Hc)|apply (consumed_min _ _ _ _ _ Hc)]. }
       destruct Ha as [Ha Hm]. cbn [ctl acs set_mark min_delay]. rewrite Ha, Hm.
       split; [intros [Hx|[Hx|[[Hx|Hx] _]]]; congruence|]. split; [intros ro Hx; congruence|discriminate].
     - (* cancel_op *)
       pose proof H as H0. apply cancel_op_spec in H0. destruct H0 as (_ & s1 & t & (pairs & _ & Hc) & Hs & -> & _).
       apply cancel_ok in Hs. destruct Hs as (_ & ->).
-      cbn [with_ctl ctl acs del_mark min_delay]. rewrite (consumed_acs _ _ _ _ Hc), (consumed_min _ _ _ _ Hc).
+      cbn [with_ctl ctl acs del_mark min_delay]. rewrite (consumed_acs _ _ _ _ _ Hc), (consumed_min _ _ _ _ _ Hc).
       split; [intros [Hx|[Hx|[[Hx|Hx] _]]]; congruence|]. split; [intros ro Hx; congruence|discriminate].
     - (* update_delay *)
       split; [intros _; split; [exact I|apply SC; exact I]|].
       pose proof H as H0. apply update_delay_spec in H0. destruct H0 as (ad & s1 & _ & (pairs & _ & Hc) & _ & -> & _).
-      cbn [with_ctl acs]. rewrite (consumed_acs _ _ _ _ Hc). split; [intros ro Hx; congruence|discriminate].
+      cbn [with_ctl acs]. rewrite (consumed_acs _ _ _ _ _ Hc). split; [intros ro Hx; congruence|discriminate].
     - (* grant_role *)
       pose proof H as H0. apply grant_role_spec in H0. destruct H0 as (s1 & a' & (pairs & Hsp & Hc) & Hi & Hg & -> & _).
       apply grant_no_auth_frame in Hg. destruct Hg as (G1 & G2 & G3 & G4 & _).
-      cbn [with_acs ctl acs]. rewrite (consumed_min _ _ _ _ Hc), G1, G2, G3.
+      cbn [with_acs ctl acs]. rewrite (consumed_min _ _ _ _ _ Hc), G1, G2, G3.
       split; [intros [Hx|[Hx|[[Hx|Hx] _]]]; congruence|]. split; [|discriminate].
       intros ro0 Hx. left. exists a, k, au.
       assert (ro0 = ro) by (destruct (N.eq_dec ro0 ro) as [E|E]; [exact E|exfalso; apply Hx; apply G4; exact E]). subst ro0.
@@ -257,7 +261,7 @@ Section WithHash.
     - (* revoke_role *)
       pose proof H as H0. apply revoke_role_spec in H0. destruct H0 as (s1 & a' & (pairs & Hsp & Hc) & Hi & Hg & -> & _).
       apply revoke_no_auth_frame in Hg. destruct Hg as (G1 & G2 & G3 & G4 & _).
-      cbn [with_acs ctl acs]. rewrite (consumed_min _ _ _ _ Hc), G1, G2, G3.
+      cbn [with_acs ctl acs]. rewrite (consumed_min _ _ _ _ _ Hc), G1, G2, G3.
       split; [intros [Hx|[Hx|[[Hx|Hx] _]]]; congruence|]. split; [|discriminate].
       intros ro0 Hx. left. exists a, k, au.
       assert (ro0 = ro) by (destruct (N.eq_dec ro0 ro) as [E|E]; [exact E|exfalso; apply Hx; apply G4; exact E]). subst ro0.
@@ -271,7 +275,7 @@ Section WithHash.
     - (* renounce_role *)
       pose proof H as H0. apply renounce_role_spec in H0. destruct H0 as (s1 & a' & (pairs & Hsp & Hc) & Hg & -> & _).
       apply revoke_no_auth_frame in Hg. destruct Hg as (G1 & G2 & G3 & G4 & G5).
-      cbn [with_acs ctl acs]. rewrite (consumed_min _ _ _ _ Hc), G1, G2, G3.
+      cbn [with_acs ctl acs]. rewrite (consumed_min _ _ _ _ _ Hc), G1, G2, G3.
       split; [intros [Hx|[Hx|[[Hx|Hx] _]]]; congruence|]. split; [|discriminate].
       intros ro0 Hx. right. exists k, au.
       assert (ro0 = ro) by (destruct (N.eq_dec ro0 ro) as [E|E]; [exact E|exfalso; apply Hx; apply G4; exact E]). subst ro0.
@@ -289,7 +293,7 @@ Section WithHash.
       cbn [with_acs acs]. split; [intros ro0 Hx; exfalso; apply Hx; reflexivity|discriminate].
     - (* accept_admin_transfer *)
       pose proof H as H0. apply accept_admin_spec in H0. destruct H0 as (ad & pa & s1 & _ & Hp & (pairs & Hsp & Hc) & -> & _).
-      cbn [with_acs ctl acs]. rewrite (consumed_min _ _ _ _ Hc).
+      cbn [with_acs ctl acs]. rewrite (consumed_min _ _ _ _ _ Hc).
       split; [intros [Hx|[Hx|[_ Hx]]]; [congruence|cbn in Hx; congruence|exfalso; apply (Hx au); reflexivity]|].
       split; [intros ro0 Hx; exfalso; apply Hx; reflexivity|].
       intros au0 Heq. injection Heq as <-. exists pa. split; [exact Hp|]. split; [reflexivity|].
@@ -301,7 +305,7 @@ Section WithHash.
       cbn [with_acs acs]. split; [intros ro0 Hx; exfalso; apply Hx; reflexivity|discriminate].
     - (* __check_auth directly *)
       pose proof H as H0. apply check_auth_call_spec in H0. destruct H0 as (_ & Hc & _).
-      rewrite (consumed_acs _ _ _ _ Hc), (consumed_min _ _ _ _ Hc).
+      rewrite (consumed_acs _ _ _ _ _ Hc), (consumed_min _ _ _ _ _ Hc).
       split; [intros [Hx|[Hx|[[Hx|Hx] _]]]; congruence|]. split; [intros ro Hx; congruence|discriminate].
     - (* advance *)
       pose proof H as H0. apply advance_spec in H0. destruct H0 as (_ & _ & -> & _).
@@ -521,11 +525,11 @@ Theorem prefix_refuted :
   (* nothing is scheduled, executors are configured, admin = the controller itself *)
   marks (ctl ex_state) = [] /\ admin (acs ex_state) = Some (self ex_cf) /\ role_count (acs ex_state) EXECUTOR = 1 /\
   (* the pre-fix __check_auth accepts the context of update_delay(0) with an empty descriptor list *)
-  check_auth_prefix hash_pair ex_cf ex_state [] [CtxC 1 F_update_delay 0] [] = Ok ex_state /\
+  check_auth_prefix hash_pair ex_cf true ex_state [] [CtxC 1 F_update_delay 0] [] = Ok ex_state /\
   (* so update_delay(0) goes through end to end with nothing consumed ... *)
-  (exists s', check_auth_prefix hash_pair ex_cf ex_state [] [CtxC 1 F_update_delay 0] [] = Ok s' /\ marks (ctl s') = []) /\
+  (exists s', check_auth_prefix hash_pair ex_cf true ex_state [] [CtxC 1 F_update_delay 0] [] = Ok s' /\ marks (ctl s') = []) /\
   (* ... while the fixed __check_auth and the fixed end-to-end call refuse it *)
-  check_auth hash_pair ex_cf ex_state [] [CtxC 1 F_update_delay 0] [] = Fail /\
+  check_auth hash_pair ex_cf true ex_state [] [CtxC 1 F_update_delay 0] [] = Fail /\
   step_ok hash_pair ex_aid ex_cf ex_state
     (UpdateDelay 0 (AZ [] (Some (SE (CtxC 1 F_update_delay 0) [] [])) [])) = Fail.
 Proof. vm_compute. repeat split. exists ex_state. vm_compute. split; reflexivity. Qed.
